@@ -213,6 +213,9 @@ INDEX_FNS = ("<std::vec::Vec<T, A> as std::ops::Index<I>>::index", "<std::vec::V
 
 class Analysis:
     def __init__(self, prog, api_taint=False, scope=None, entry_param_top=True):
+        self.closure_env = {}
+        self.closure_built = set()      # closures whose construction has been analysed
+        self._closure_sites = None      # closure id -> functions that build it
         self.prog = prog
         self.api_taint = api_taint
         self.scope = scope  # set of fn ids to analyse (None = all)
@@ -273,6 +276,20 @@ class Analysis:
             self.changed = True
             for c in self.prog.callers().get(fid, ()):
                 self.dirty.add(c)
+
+    def join_closure_env(self, cid, i, v, ty):
+        """captured variable i of closure cid: join over every construction of the closure"""
+        key = (cid, i)
+        old = self.closure_env.get(key)
+        new = vjoin(old, v)
+        if new != old:
+            if old is not None and new[0] is not None and self._bump(("c", cid, i)) > WIDEN_AFTER:
+                t = top_of(ty)
+                new = (t[0], t[1], new[2] | WSET, False) if t[0] is not None else new
+            self.closure_env[key] = new
+            self.changed = True
+            if cid in self.prog.fns:
+                self.dirty.add(cid)
 
     def join_field(self, key, v, ty):
         old = self.field.get(key)
@@ -412,6 +429,16 @@ class FnPass:
         fty = p[2]
         if len(projs) == 1 and projs[0][0] == "." and not projs[0][3] and ("T", base, projs[0][1]) in st and fn.local_ty(base).startswith("("):
             return st[("T", base, projs[0][1])]
+        if base == 1 and fn.kind == "closure":
+            # a captured variable: the closure environment is `_1` (FnOnce) or `*_1` (Fn / FnMut); field i is capture i, whose value
+            # is the join over every place the closure is built
+            pj = [e for e in projs]
+            if pj and pj[0][0] == "*":
+                pj = pj[1:]
+            if pj and pj[0][0] == "." and (len(pj) == 1 or (len(pj) == 2 and pj[1][0] == "*")):
+                cv = self.an.closure_env.get((fn.id, pj[0][1]))
+                if cv is not None and cv[0] is not None and cv[0] != "bot" and payload_ty(fty) is not None:
+                    return cv
         bv = self.get(st, base)
         taint = bv[2]
         pty = payload_ty(fty)
@@ -656,6 +683,16 @@ class FnPass:
                 taint = taint | v[2]
             kk = rv[1]
             pt = payload_ty(dest_ty)
+            if kk[0] == "closure":
+                if kk[1] not in self.an.closure_built:
+                    self.an.closure_built.add(kk[1])
+                    self.an.changed = True
+                    if kk[1] in self.prog.fns:
+                        self.an.dirty.add(kk[1])
+                for i_, (o, v) in enumerate(zip(rv[2], vals)):
+                    oty = self._operand_ty(o)
+                    if payload_ty(oty) is not None and not oty.startswith("&mut"):
+                        self.an.join_closure_env(kk[1], i_, v if v[0] is not None else top_of(oty)[:2] + (v[2], False), oty)
             if kk[0] == "adt":
                 adt, variant = kk[1], kk[2]
                 if adt in self.prog.adts:
@@ -1382,6 +1419,20 @@ class FnPass:
     def run(self):
         fn = self.fn
         an = self.an
+        if fn.kind == "closure" and fn.id not in an.closure_built:
+            # a closure body runs only after the closure was built: until a construction site (inside the analysed scope) has been
+            # seen, its captured variables are unknown and analysing it would only smear type-wide ranges into its callees
+            if an._closure_sites is None:
+                an._closure_sites = {}
+                for g in self.prog.fns.values():
+                    if g.promoted or (an.scope is not None and g.id not in an.scope):
+                        continue
+                    for bb in g.blocks:
+                        for st_ in bb.stmts:
+                            if st_[0] == "=" and st_[2][0] == "agg" and st_[2][1][0] == "closure":
+                                an._closure_sites.setdefault(st_[2][1][1], set()).add(g.id)
+            if an._closure_sites.get(fn.id):
+                return
         an.stats["fn_passes"] += 1
         init = {}
         pin = an.param_in.get(fn.id, {})
